@@ -54,6 +54,7 @@ package scengen
 import (
 	"fmt"
 	"sort"
+	"strconv"
 	"strings"
 )
 
@@ -107,6 +108,28 @@ type Source struct {
 	// function call (uuid(), randInt(..), randString(..)): pandora replaces
 	// them by a fresh random value when the provider is built.
 	RandKeys []string `json:"rand_keys,omitempty"`
+	// TypedKeys lists the keys of Variables whose value (an integer or boolean
+	// literal in V) is written as a bare number / boolean in both syntaxes
+	// (`port = 8090`, `port: 8090`, as in docs/eng/scenario/variable_source.md)
+	// instead of as a string.
+	TypedKeys []string `json:"typed_keys,omitempty"`
+}
+
+// TypedValue returns the value of a `variables` entry: an int64 or a bool for
+// the keys listed in TypedKeys, the string otherwise.
+func (s Source) TypedValue(e KV) any {
+	for _, k := range s.TypedKeys {
+		if k != e.K {
+			continue
+		}
+		if e.V == "true" || e.V == "false" {
+			return e.V == "true"
+		}
+		if n, err := strconv.ParseInt(e.V, 10, 64); err == nil {
+			return n
+		}
+	}
+	return e.V
 }
 
 // Preprocessor is the HTTP request preprocessor (one per request, no type).
